@@ -30,3 +30,184 @@ structure UseSite where
   deriving DecidableEq, Repr
 
 end Sif.Det
+
+/-!
+  Part 2: models of the map-ranging computations.  The iteration order of a Go map is an
+  arbitrary permutation of its entries, so every model takes the order as a `List` parameter and
+  the theorems (Sif/Props/C09.lean) quantify over `List.Perm`.
+
+  A Go panic inside BeginBlock/EndBlock halts the chain whatever the panic value is, so these
+  models use `Option` (`none` = halt) rather than `Except Panic`.
+-/
+namespace Sif.Det
+
+/-- function update -/
+def upd {κ : Type} {ν : Type} [DecidableEq κ] (f : κ → ν) (k : κ) (v : ν) : κ → ν :=
+  fun x => if x = k then v else f x
+
+/-- fold of a step that may halt -/
+def foldH {σ α : Type} (f : σ → α → Option σ) : σ → List α → Option σ
+  | s, [] => some s
+  | s, a :: l => (f s a).bind (fun s' => foldH f s' l)
+
+def two256 : Nat := 2 ^ 256
+
+/-! ### A. `poolRowanMapSum` (DistributeDepthRewards): `sum = sum.Add(rowan)` over the map values.
+    `sdk.Uint.Add` panics when the result needs more than 256 bits. -/
+
+def uintAdd (a b : Nat) : Option Nat := if a + b < two256 then some (a + b) else none
+
+def sumValues (order : List Nat) : Option Nat := foldH uintAdd 0 order
+
+/-! ### B. pool-record updates keyed by `*types.Pool`.
+    Each map key is an in-memory pool object; the loop body mutates the object and writes the whole
+    object to the store under the object's symbol (`SetPool`). -/
+
+structure PoolObj where
+  sym : String
+  native : Nat
+  rewardDistributed : Nat
+  deriving DecidableEq, Repr
+
+abbrev PoolStore := String → Option PoolObj
+
+/-- `TransferProviderDistribution`: `k.RemoveRowanFromPool(ctx, pool, sub)` — returns an error (ignored
+    by the caller, nothing written) when the balance is too low, else subtracts and `SetPool`s. -/
+def removeRowanStep (st : PoolStore) (e : PoolObj × Nat) : Option PoolStore :=
+  if e.1.native < e.2 then some st
+  else some (upd st e.1.sym (some { e.1 with native := e.1.native - e.2 }))
+
+def lppdPoolUpdate (order : List (PoolObj × Nat)) (st : PoolStore) : Option PoolStore :=
+  foldH removeRowanStep st order
+
+/-- `DistributeDepthRewards`, second loop: skip zero amounts; `RewardPeriodNativeDistributed.Add(rowan)`
+    (panics past 256 bits); `SetPool`. -/
+def rewardsPoolStep (st : PoolStore) (e : PoolObj × Nat) : Option PoolStore :=
+  if e.2 = 0 then some st
+  else (uintAdd e.1.rewardDistributed e.2).map
+    (fun r => upd st e.1.sym (some { e.1 with rewardDistributed := r }))
+
+def rewardsPoolUpdate (order : List (PoolObj × Nat)) (st : PoolStore) : Option PoolStore :=
+  foldH rewardsPoolStep st order
+
+/-! ### C. `TransferProviderDistributionGeneric` as it was before repair F20 (LPPD and depth-reward
+    wallet payouts): one `SendCoinsFromModuleToAccount` per map entry; on failure the amounts are
+    taken back out of `poolRowanMap` (`Uint.Sub`, panics on underflow).  x/bank v0.45.16:
+    blocked recipient ⇒ error; insufficient module balance ⇒ error; otherwise move the coins and
+    create the recipient's account if it does not exist — and x/auth numbers accounts in creation
+    order (`GetNextAccountNumber`). -/
+
+structure Bank where
+  modBal : Nat
+  bal : String → Nat
+  hasAcct : String → Bool
+  acctNum : String → Nat
+  nextNum : Nat
+
+structure LpEntry where
+  addr : String
+  total : Nat
+  /-- `lpPoolMap[addr]`: the per-pool parts of `total` -/
+  pools : List (String × Nat)
+  deriving DecidableEq, Repr
+
+structure PayState where
+  bank : Bank
+  /-- `poolRowanMap`, keyed by pool symbol -/
+  poolMap : String → Nat
+
+def Bank.touch (b : Bank) (a : String) : Bank :=
+  if b.hasAcct a then b
+  else { b with hasAcct := upd b.hasAcct a true, acctNum := upd b.acctNum a b.nextNum, nextNum := b.nextNum + 1 }
+
+/-- `SendCoinsFromModuleToAccount(clp, to, amt rowan)`; `none` = the call returned an error -/
+def Bank.send (blocked : String → Bool) (b : Bank) (to : String) (amt : Nat) : Option Bank :=
+  if blocked to then none
+  else if b.modBal < amt then none
+  else some ({ b with modBal := b.modBal - amt, bal := upd b.bal to (b.bal to + amt) }.touch to)
+
+def subOne (pm : String → Nat) (e : String × Nat) : Option (String → Nat) :=
+  if pm e.1 < e.2 then none else some (upd pm e.1 (pm e.1 - e.2))
+
+/-- the failure branch: `poolRowanMap[p] = poolRowanMap[p].Sub(amount)` for every pool of the provider -/
+def subPools (pm : String → Nat) (l : List (String × Nat)) : Option (String → Nat) := foldH subOne pm l
+
+def payStep (blocked : String → Bool) (s : PayState) (e : LpEntry) : Option PayState :=
+  match s.bank.send blocked e.addr e.total with
+  | some b => some { s with bank := b }
+  | none => (subPools s.poolMap e.pools).map (fun pm => { s with poolMap := pm })
+
+def transfer (blocked : String → Bool) (order : List LpEntry) (s : PayState) : Option PayState :=
+  foldH (payStep blocked) s order
+
+/-- observable part of a `PayState` at finitely many addresses / pools (for `decide`d witnesses) -/
+def PayState.view (s : PayState) (addrs pools : List String) : Nat × List (Nat × Bool × Nat) × Nat × List Nat :=
+  (s.bank.modBal, addrs.map (fun a => (s.bank.bal a, s.bank.hasAcct a, s.bank.acctNum a)), s.bank.nextNum, pools.map s.poolMap)
+
+/-! ### D. per-key iterations touching disjoint components (the epoch payout loop before repair F20,
+    keyed by asset).  The work of one iteration on its own component (bucket, pool record, provider
+    records and the balances in that asset's denom) is an arbitrary function `g`; what the model
+    keeps explicit is the only shared state: account creation for the paid addresses. -/
+
+structure Auth where
+  hasAcct : String → Bool
+  acctNum : String → Nat
+  nextNum : Nat
+
+def Auth.touch (a : Auth) (x : String) : Auth :=
+  if a.hasAcct x then a
+  else { hasAcct := upd a.hasAcct x true, acctNum := upd a.acctNum x a.nextNum, nextNum := a.nextNum + 1 }
+
+structure KeyedState (κ ν : Type) where
+  comp : κ → ν
+  auth : Auth
+
+/-- one iteration: update the key's own component (may halt), create accounts for the addresses it paid -/
+def keyedStep {κ ν : Type} [DecidableEq κ] (g : κ → ν → Option ν) (paid : κ → ν → List String)
+    (s : KeyedState κ ν) (k : κ) : Option (KeyedState κ ν) :=
+  (g k (s.comp k)).map (fun v => { comp := upd s.comp k v, auth := (paid k (s.comp k)).foldl Auth.touch s.auth })
+
+def keyedRun {κ ν : Type} [DecidableEq κ] (g : κ → ν → Option ν) (paid : κ → ν → List String)
+    (order : List κ) (s : KeyedState κ ν) : Option (KeyedState κ ν) :=
+  foldH (keyedStep g paid) s order
+
+/-! ### E. the oracle tally (`Prophecy.FindHighestClaim` + the decision of `processCompletion`).
+    Own minimal model: a claim group is (content, power counted for it).  `reach` / `fails` stand for
+    the two float comparisons with `consensusNeeded`. -/
+
+structure ClaimGroup where
+  content : String
+  power : Nat
+  deriving DecidableEq, Repr
+
+structure Tally where
+  claim : String
+  hp : Int
+  tot : Nat
+  deriving DecidableEq, Repr
+
+def tallyStep (t : Tally) (g : ClaimGroup) : Tally :=
+  if (g.power : Int) > t.hp then { claim := g.content, hp := g.power, tot := t.tot + g.power }
+  else { t with tot := t.tot + g.power }
+
+def tally (order : List ClaimGroup) : Tally := order.foldl tallyStep { claim := "", hp := -1, tot := 0 }
+
+inductive Outcome where
+  | success (finalClaim : String)
+  | failed
+  | pending
+  deriving DecidableEq, Repr
+
+/-- `processCompletion`: `reach hp total` is `float64(hp)/float64(total) >= consensusNeeded`;
+    `fails hpPossible total` is `float64(hpPossible)/float64(total) < consensusNeeded` -/
+def complete (reach fails : Int → Nat → Bool) (total : Nat) (t : Tally) : Outcome :=
+  if reach t.hp total then .success t.claim
+  else if fails (t.hp + ((total : Int) - (t.tot : Int))) total then .failed
+  else .pending
+
+/-! ### F. `partitionLPsbyAsset`: builds the map asset ↦ slice by appending in store order. -/
+
+def partition {α : Type} (key : α → String) (lps : List α) : String → List α :=
+  lps.foldl (fun m lp => upd m (key lp) (m (key lp) ++ [lp])) (fun _ => [])
+
+end Sif.Det
